@@ -242,13 +242,13 @@ Definition ex_csig (key : Z) (b : batch) : icsig := Some (key, checkpoint b).
     the same batch; the estimate 21000 is elected: confirmations gone; the old signature is refused,
     one over the new checkpoint is accepted. *)
 Definition ex_cops : list (cop icsig) :=
-  [ BRegister 1 [{| ac_chain := 1; ac_addr := 11; ac_key := 101 |}];
-    BRegister 2 [{| ac_chain := 1; ac_addr := 12; ac_key := 102 |}];
+  [ BRegister 1 [{| ac_chain := 1; ac_addr := 11; ac_key := 101; ac_eth := 11 |}];
+    BRegister 2 [{| ac_chain := 1; ac_addr := 12; ac_key := 102; ac_eth := 12 |}];
     BBuild 9 1 7 1000 55;
     BConfirm 1 1 9 11 (ex_csig 11 (ex_batch 0));
     BConfirm 2 1 9 12 (ex_csig 12 (ex_batch 0));
-    BRegister 1 [{| ac_chain := 1; ac_addr := 13; ac_key := 103 |}];
-    BRegister 3 [{| ac_chain := 1; ac_addr := 11; ac_key := 101 |}];
+    BRegister 1 [{| ac_chain := 1; ac_addr := 13; ac_key := 103; ac_eth := 13 |}];
+    BRegister 3 [{| ac_chain := 1; ac_addr := 11; ac_key := 101; ac_eth := 11 |}];
     BConfirm 3 1 9 11 (ex_csig 11 (ex_batch 0));
     BUpdateEstimate 1 9 21000;
     BConfirm 2 1 9 12 (ex_csig 12 (ex_batch 0));
